@@ -56,8 +56,8 @@ SPIN_KEYS = ["SS", "SA", "SHA", "SH", "SR", "SHR"]
 EQUAL_AXES = {"sc": [(0, 1), (1, 2)], "fcc": [(0, 1), (1, 2)], "bcc": [(0, 1), (1, 2)], "rhombohedral": [(0, 1), (1, 2)],
               "tetragonal": [(0, 1)], "hexagonal": [(0, 1)], "hexagonal60": [(0, 1)]}
 CALIB = None   # set to a list by calibration scripts: (name, error in natural units, scale, min gap, longest lattice vector)
-CORE = {"static": ["static.AHC", "static.BerryDipole_FermiSea", "static.Ohmic_FermiSea"], "dynamic": [],
-        "tab": ["tab.BerryCurvature", "tab.DerBerryCurvature"]}
+CORE = {"static": ["static.AHC", "static.BerryDipole_FermiSea", "static.Ohmic_FermiSea", "static.user:VdotOmega"], "dynamic": [],
+        "tab": ["tab.BerryCurvature", "tab.DerBerryCurvature", "tab.user:VdotOmega"]}
 _small = st.tuples(st.integers(-1, 1), st.integers(-1, 1), st.integers(-1, 1)).filter(lambda r: any(r))
 _idx = st.integers(0, 10 ** 6)
 
@@ -102,6 +102,26 @@ def classes(mod, base):
                   key=lambda x: x[0])
 
 
+_USER = {}
+
+
+def user_formulas():
+    if not _USER:
+        from wannierberri.formula.formula import DeltaProduct
+        from wannierberri.formula import covariant
+
+        class VdotOmega(DeltaProduct):
+            def __init__(self, data_K, **kwargs_formula):
+                super().__init__(np.eye(3), covariant.VelOmega(data_K, **kwargs_formula), 'ab,MLab->ML')
+
+        class TrVelVel(DeltaProduct):
+            def __init__(self, data_K, **kwargs_formula):
+                super().__init__(np.eye(3), covariant.VelVel(data_K, **kwargs_formula), 'ab,MLab->ML')
+
+        _USER.update(VdotOmega=VdotOmega, TrVelVel=TrVelVel)
+    return _USER
+
+
 def registries(Ef):
     """-> dict kind -> list of (name, factory); factories build fresh calculator objects"""
     from wannierberri.calculators import static, tabulate, dynamic, sdct
@@ -121,6 +141,12 @@ def registries(Ef):
         for tag, kf in variants:
             kw = dict(kwargs_formula=kf) if kf else {}
             tab.append((f"tab.{n}{tag}", (lambda c=c, kw=kw: c(**kw))))
+    # user-defined rank-0 contractions (the documented way to define one's own quantity: StaticCalculator(Formula=...),
+    # Tabulator(Formula)); the declared transforms are inherited from the contracted formula:
+    # v.Omega is a pseudoscalar (TR-even, inversion-odd), tr(v v) a true scalar
+    for uname, Form in user_formulas().items():
+        stat.append((f"static.user:{uname}", (lambda F=Form: static.StaticCalculator(Efermi=Ef, Formula=F, fder=0, use_factor=False))))
+        tab.append((f"tab.user:{uname}", (lambda F=Form: tabulate.Tabulator(F))))
     dkw = dict(Efermi=Ef[:2], omega=om, kBT=0.05, smr_fixed_width=0.1)
     for n, c in classes(dynamic, dynamic.DynamicCalculator):
         kw = dict(dkw)
